@@ -2,6 +2,17 @@
 
 # id -> dict(module, level, technique, decided, not_decided, design_ref)
 CLAIMS = {
+    'C05': dict(
+        module='c05', level='other',
+        technique='table/layout agreement (descriptor table folded from LLVM IR vs clang record layout) + typestate walk of header/payload byte accounting in writer and reader',
+        decided='every leaf member of struct reb_simulation is persisted by a descriptor row, is the counter of a row, is a function pointer, '
+                'or carries a frozen classification (derived/scratch/step-transient/inert/reattach) - an unclassified member is a violation; '
+                'every row: unique id/name/offset, END last, name equals the member path at its offset, dtype matches the C type, '
+                'element_size equals sizeof(pointee), counter is a 4-byte integer of the same sub-structure; writer and reader '
+                'handle every dtype used by the table; every header write in the serialiser is followed by exactly header.size payload '
+                'bytes; every reader branch consumes exactly field.size bytes.',
+        not_decided='that the persisted set is sufficient for bit-wise continuation of every integrator; padding bytes; the continuation itself (runtime)',
+        design_ref='3/C05'),
     'C18': dict(
         module='c18', level='other',
         technique='ABI layout comparison: clang record layouts vs a ctypes layout calculator over the _fields_ AST; enum/dictionary and prototype/CFUNCTYPE table agreement',
